@@ -118,17 +118,15 @@ theorem steps_present_iff (f : Flags) (l : List Kind) (h : kinds f = .ok l) :
     (Kind.exportTum ∈ l ↔ f.saveTum = true) ∧
     (Kind.exportKitti ∈ l ↔ f.saveKitti = true) := by
   have m := mem_kinds f l h
-  refine ⟨?_, ?_, ?_, ?_, ?_, ?_, ?_, ?_, ?_⟩
-  · rw [m]; simp
-  · rw [m]; simp
-  · rw [m]; simp
-  · rw [m]; simp
-  · rw [m]; simp
-  · rw [m]; simp
-    intro ha; exact synced_of_alignOrigin f ha
-  · intro p; rw [m]; simp [eq_comm]
-  · rw [m]; simp
-  · rw [m]; simp
+  refine ⟨?_, ?_, ?_, ?_, ?_, ?_, ?_, ?_, ?_⟩ <;> (try intro p) <;> rw [m] <;>
+    simp only [reduceCtorEq, and_false, and_true, false_or, or_false, exists_false, Kind.project.injEq,
+      Bool.and_eq_true, bne_iff_ne, ne_eq]
+  · constructor
+    · rintro ⟨_, h⟩; exact h
+    · intro h; exact ⟨synced_of_alignOrigin f h, h⟩
+  · constructor
+    · rintro ⟨q, h1, h2⟩; rw [h2]; exact h1
+    · intro h; exact ⟨p, h, rfl⟩
 
 /-- **Umeyama alignment wiring**: the alignment step exists iff `--align` or `--correct_scale`;
 `correct_scale` is the `-s` flag, and only the scale is corrected exactly when `-s` is given without
@@ -178,15 +176,11 @@ theorem refPlan_only_downsample_filter_project (o : TrajOpts) :
   split at hs
   · rw [List.mem_map] at hs
     obtain ⟨k, hk, rfl⟩ := hs
-    simp only [List.mem_append, mem_opt, exports] at hk
-    rcases hk with ((⟨h, rfl⟩ | ⟨h, rfl⟩) | hk) | (⟨h, rfl⟩ | ⟨h, rfl⟩)
+    simp only [List.mem_append, mem_opt, mem_plane, exports] at hk
+    rcases hk with ((⟨h, rfl⟩ | ⟨h, rfl⟩) | ⟨p, hp, rfl⟩) | (⟨h, rfl⟩ | ⟨h, rfl⟩)
     · exact Or.inl ⟨rfl, h⟩
     · exact Or.inr (Or.inl ⟨rfl, h⟩)
-    · cases hp : o.flags.plane with
-      | none => simp [hp] at hk
-      | some p =>
-        simp [hp] at hk; subst hk
-        exact Or.inr (Or.inr (Or.inl ⟨p, rfl, rfl⟩))
+    · exact Or.inr (Or.inr (Or.inl ⟨p, rfl, hp⟩))
     · exact Or.inr (Or.inr (Or.inr (Or.inl ⟨rfl, h⟩)))
     · exact Or.inr (Or.inr (Or.inr (Or.inr ⟨rfl, h⟩)))
   · simp at hs
@@ -203,40 +197,36 @@ theorem refPlan_present_iff (f : Flags) (hr : f.ref = true) :
     (∀ p, Kind.project p ∈ refKinds f ↔ f.plane = some p) := by
   unfold refKinds
   rw [if_pos hr]
-  simp only [List.mem_append, mem_opt, exports]
-  cases hpl : f.plane <;> simp <;> intro p <;> constructor <;> intro h' <;> simp_all
+  refine ⟨?_, ?_, ?_⟩ <;> (try intro p) <;>
+    simp only [List.mem_append, mem_opt, mem_plane, exports, reduceCtorEq, and_false, and_true, false_or,
+      or_false, exists_false, Kind.project.injEq]
+  constructor
+  · rintro ⟨q, h1, h2⟩; rw [h2]; exact h1
+  · intro h; exact ⟨p, h, rfl⟩
 
 /-! ## no processing option -/
+
+/-- closed form of `trajPlan_no_options_is_identity` -/
+theorem no_options_kinds (f : Flags) (h : f.noProcessing = true) :
+    (kinds f = .ok (exports f) ∨ kinds f = .error .tumWithoutStamps) ∧
+    refKinds f = (if f.ref then exports f else []) := by
+  obtain ⟨sub, ref, noTraj, ds, mf, mg, toff, nta, sy, al, cs, ao, tl, tr, inv, pr, pl, st, sk⟩ := f
+  simp only [Flags.noProcessing, Bool.and_eq_true, Bool.not_eq_true', Option.isNone_iff_eq_none] at h
+  obtain ⟨⟨⟨⟨⟨⟨⟨⟨⟨⟨⟨h1, h2⟩, h3⟩, h4⟩, h5⟩, h6⟩, h7⟩, h8⟩, h9⟩, h10⟩, h11⟩, h12⟩ := h
+  subst h1 h2 h3 h4 h5 h6 h7 h8 h9 h10 h11 h12
+  cases sub <;> cases ref <;> cases noTraj <;> cases inv <;> cases pr <;> cases st <;> cases sk <;> decide
 
 /-- **without processing options nothing but the export happens** (with C06: exported = input);
 the only way to die then is `--save_as_tum` on KITTI input, which has no timestamps -/
 theorem trajPlan_no_options_is_identity (f : Flags) (h : f.noProcessing = true) :
     (∀ l, kinds f = .ok l → l = exports f) ∧ (∀ d, kinds f = .error d → d = .tumWithoutStamps) ∧
     refKinds f = (if f.ref then exports f else []) := by
-  simp only [Flags.noProcessing, Bool.and_eq_true, Bool.not_eq_true', Option.isNone_iff_eq_none] at h
-  obtain ⟨⟨⟨⟨⟨⟨⟨⟨⟨⟨⟨h1, h2⟩, h3⟩, h4⟩, h5⟩, h6⟩, h7⟩, h8⟩, h9⟩, h10⟩, h11⟩, h12⟩ := h
-  refine ⟨?_, ?_, ?_⟩
+  obtain ⟨hk, hr⟩ := no_options_kinds f h
+  refine ⟨?_, ?_, hr⟩
   · intro l hl
-    unfold kinds at hl
-    split at hl
-    · cases hl
-    · cases hl
-      simp [opt, h1, h2, h3, h4, h6, h7, h8, h9, h10, h11, h12, Flags.synced]
+    rcases hk with hk | hk <;> rw [hk] at hl <;> cases hl; rfl
   · intro d hd
-    unfold kinds at hd
-    split at hd
-    · next d' hd' =>
-      cases hd
-      unfold dies at hd'
-      simp [h1, h2, h3, h4, h5, h6, h7, h8, h9, h10, h11, h12, Flags.synced] at hd'
-      split at hd'
-      · next hc => simp_all
-      · split at hd'
-        · exact (Option.some.inj hd').symm
-        · cases hd'
-    · cases hd
-  · unfold refKinds
-    simp [opt, h1, h2, h12]
+    rcases hk with hk | hk <;> rw [hk] at hd <;> cases hd; rfl
 
 /-! ## `transform()`: left / right / propagated -/
 
@@ -379,7 +369,12 @@ def fNone : Flags :=
 example : fNone.noProcessing = true ∧ kinds fNone = .ok [.exportTum, .exportKitti] := by decide
 /-- a rotation by 90° about z with translation (1,2,3): hypotheses of the inverse theorems hold -/
 def Rz : M3 Rat := ⟨0, -1, 0, 1, 0, 0, 0, 0, 1⟩
-example : IsRot Rz := by constructor <;> decide +kernel
+example : IsRot Rz := by
+  constructor
+  · show Rz.transpose.mul Rz = M3.one
+    decide +kernel
+  · show Rz.det = 1
+    decide +kernel
 example : isSe3Tol (Pose.sim3 Rz ⟨1, 2, 3⟩ (1 / 2)) = false := by decide +kernel
 example : (invertTransform (Pose.sim3 Rz ⟨1, 2, 3⟩ (1 / 2)) (1 / 2)).mul (Pose.sim3 Rz ⟨1, 2, 3⟩ (1 / 2)) = Pose.one := by
   decide +kernel
